@@ -1,3 +1,301 @@
 import BB.Driver.Util
-/-! Placeholder driver for C14 (replaced when the model is built). -/
-def main : IO Unit := BB.Driver.loop (fun (s : Unit) _ => (s, "unimplemented")) ()
+import BB.Model.ByteStream
+/-!
+Line-protocol driver of the C14 model (ByteStream / CAS / AC services and the CAS client).
+
+    reset
+    cfg <chunk> <maxmsg> <strictW> <strictR> <lenient> <trunccode> <trunctag>
+    store <hash> <size> <hex> | acstore <hash> <size> <hex> <parses 0|1>
+    fault put <code> <early 0|1> | fault get <code> | fault fm <code> | fault clear
+    dec <hexin> <c|t|x> <hexout>              declare the decoder's behaviour on one input
+    write <kind> <hash> <size> <eof|e<code>> <senderr> [; <off> <hex> <fin 0|1>]*
+    read <kind> <hash> <size> <off> <limit> <failat>
+    bupd <call> [; <bad> <hash> <size> <hex>]*     call := ok | instance | function
+    bread <call> [; <bad> <hash> <size>]*
+    fmb <call> [; <bad> <hash> <size>]*
+    acput <call> <hash> <size> <hex> | acget <call> <hash> <size>
+    cput <z 0|1> <hash> <size> <hex> | cget <z> <hash> <size> | cfm [; <hash> <size>]*
+    dump
+
+`H` is SHA-256 (implemented below); kind tokens may carry a harness-only
+`.variant` suffix.  The end-to-end operations (`cput`, `cget`) run with the
+identity codec (`enc = id`, `dec x = (x, clean)`); `write` uses the declared table.
+-/
+open BB.Driver BB.ByteStream
+
+namespace Sha256
+
+def K : Array UInt32 := #[
+  0x428a2f98, 0x71374491, 0xb5c0fbcf, 0xe9b5dba5, 0x3956c25b, 0x59f111f1, 0x923f82a4, 0xab1c5ed5,
+  0xd807aa98, 0x12835b01, 0x243185be, 0x550c7dc3, 0x72be5d74, 0x80deb1fe, 0x9bdc06a7, 0xc19bf174,
+  0xe49b69c1, 0xefbe4786, 0x0fc19dc6, 0x240ca1cc, 0x2de92c6f, 0x4a7484aa, 0x5cb0a9dc, 0x76f988da,
+  0x983e5152, 0xa831c66d, 0xb00327c8, 0xbf597fc7, 0xc6e00bf3, 0xd5a79147, 0x06ca6351, 0x14292967,
+  0x27b70a85, 0x2e1b2138, 0x4d2c6dfc, 0x53380d13, 0x650a7354, 0x766a0abb, 0x81c2c92e, 0x92722c85,
+  0xa2bfe8a1, 0xa81a664b, 0xc24b8b70, 0xc76c51a3, 0xd192e819, 0xd6990624, 0xf40e3585, 0x106aa070,
+  0x19a4c116, 0x1e376c08, 0x2748774c, 0x34b0bcb5, 0x391c0cb3, 0x4ed8aa4a, 0x5b9cca4f, 0x682e6ff3,
+  0x748f82ee, 0x78a5636f, 0x84c87814, 0x8cc70208, 0x90befffa, 0xa4506ceb, 0xbef9a3f7, 0xc67178f2]
+
+def rotr (x : UInt32) (n : UInt32) : UInt32 := (x >>> n) ||| (x <<< (32 - n))
+
+def be64 (n : Nat) : List Nat := (List.range 8).map fun i => (n / 256 ^ (7 - i)) % 256
+
+def pad (msg : List Nat) : List Nat :=
+  let l := msg.length
+  let zeros := (64 - (l + 9) % 64) % 64
+  msg ++ [0x80] ++ List.replicate zeros 0 ++ be64 (l * 8)
+
+def word (b : Array Nat) (i : Nat) : UInt32 :=
+  UInt32.ofNat (b[i]! * 16777216 + b[i+1]! * 65536 + b[i+2]! * 256 + b[i+3]!)
+
+def schedule (blk : Array Nat) : Array UInt32 := Id.run do
+  let mut w : Array UInt32 := Array.replicate 64 0
+  for i in [0:16] do
+    w := w.set! i (word blk (4 * i))
+  for i in [16:64] do
+    let a := w[i-15]!
+    let b := w[i-2]!
+    let s0 := rotr a 7 ^^^ rotr a 18 ^^^ (a >>> 3)
+    let s1 := rotr b 17 ^^^ rotr b 19 ^^^ (b >>> 10)
+    w := w.set! i (w[i-16]! + s0 + w[i-7]! + s1)
+  return w
+
+def compress (h : Array UInt32) (blk : Array Nat) : Array UInt32 := Id.run do
+  let w := schedule blk
+  let mut a := h[0]!; let mut b := h[1]!; let mut c := h[2]!; let mut d := h[3]!
+  let mut e := h[4]!; let mut f := h[5]!; let mut g := h[6]!; let mut hh := h[7]!
+  for i in [0:64] do
+    let s1 := rotr e 6 ^^^ rotr e 11 ^^^ rotr e 25
+    let ch := (e &&& f) ^^^ ((~~~ e) &&& g)
+    let t1 := hh + s1 + ch + K[i]! + w[i]!
+    let s0 := rotr a 2 ^^^ rotr a 13 ^^^ rotr a 22
+    let mj := (a &&& b) ^^^ (a &&& c) ^^^ (b &&& c)
+    let t2 := s0 + mj
+    hh := g; g := f; f := e; e := d + t1; d := c; c := b; b := a; a := t1 + t2
+  return #[h[0]! + a, h[1]! + b, h[2]! + c, h[3]! + d, h[4]! + e, h[5]! + f, h[6]! + g, h[7]! + hh]
+
+def blocks : Nat → List Nat → List (Array Nat)
+  | 0, _ => []
+  | n + 1, l => if l.isEmpty then [] else (l.take 64).toArray :: blocks n (l.drop 64)
+
+def hash (msg : List Nat) : List Nat :=
+  let p := pad msg
+  let h0 : Array UInt32 := #[0x6a09e667, 0xbb67ae85, 0x3c6ef372, 0xa54ff53a, 0x510e527f, 0x9b05688c, 0x1f83d9ab, 0x5be0cd19]
+  let h := (blocks p.length p).foldl compress h0
+  h.toList.flatMap fun x =>
+    let n := x.toNat
+    [n / 16777216 % 256, n / 65536 % 256, n / 256 % 256, n % 256]
+
+end Sha256
+
+structure S where
+  cs : Nat := 16
+  maxMsg : Int := 1000
+  flags : Flags := {}
+  cas : Store := []
+  ac : Store := []
+  garbage : List Bytes := []
+  putFault : Option (Nat × Bool) := none
+  getFault : Option Nat := none
+  fmFault : Option Nat := none
+  decTab : List (Bytes × (Bytes × DFin)) := []
+
+def splitOn (ws : List String) (sep : String) : List (List String) :=
+  let rec go : List String → List String → List (List String) → List (List String)
+    | [], cur, acc => (cur.reverse :: acc).reverse
+    | w :: rest, cur, acc => if w == sep then go rest [] (cur.reverse :: acc) else go rest (w :: cur) acc
+  go ws [] []
+
+def bool? (s : String) : Option Bool :=
+  if s == "1" then some true else if s == "0" then some false else none
+
+def kind? (s : String) : Option NameKind :=
+  let base := String.ofList (s.toList.takeWhile (· != '.'))
+  if base == "id" then some .identity
+  else if base == "zstd" then some .zstd
+  else if base == "unsupported" then some .unsupported
+  else if base == "unknown" then some .unknown
+  else if base == "bad" then some .bad
+  else none
+
+def digest? (h sz : String) : Option Digest := do
+  let hb ← hexBytes? h
+  let n ← nat? sz
+  pure ⟨hb, n⟩
+
+def end? (s : String) : Option StreamEnd :=
+  if s == "eof" then some .eof
+  else match s.toList with
+    | 'e' :: ds => (nat? (String.ofList ds)).map StreamEnd.err
+    | _ => none
+
+def call? (s : String) : Option (Option Err) :=
+  if s == "ok" then some none
+  else if s == "instance" then some (some ⟨3, "instance"⟩)
+  else if s == "function" then some (some ⟨3, "function"⟩)
+  else none
+
+def msg? : List String → Option WriteReq
+  | [o, h, f] => do pure ⟨← int? o, ← hexBytes? h, ← bool? f⟩
+  | _ => none
+
+def upd? : List String → Option UpdEntry
+  | [b, h, sz, x] => do pure ⟨← bool? b, ← digest? h sz, ← hexBytes? x⟩
+  | _ => none
+
+def rd? : List String → Option RdEntry
+  | [b, h, sz] => do pure ⟨← bool? b, ← digest? h sz⟩
+  | _ => none
+
+def showErr (e : Err) : String := s!"{e.code} {e.tag}"
+def showKey (d : Digest) : String := s!"{bytesHex d.hash}-{d.size}"
+def showChunks (l : List Bytes) : String := if l.isEmpty then "-" else ",".intercalate (l.map bytesHex)
+
+def showStore (st : Store) : String :=
+  let rec go : Store → List Digest → List String → List String
+    | [], _, acc => acc.reverse
+    | (k, v) :: r, seen, acc =>
+      if seen.contains k then go r seen acc else go r (k :: seen) (s!"{showKey k}={bytesHex v}" :: acc)
+  " ".intercalate (go st [] [])
+
+def tableCodec (s : S) : Codec :=
+  { H := Sha256.hash
+    dec := fun x => match s.decTab.lookup x with | some r => r | none => ([], .corrupt)
+    enc := id }
+
+def idCodec : Codec := { H := Sha256.hash, dec := fun x => (x, .clean), enc := id }
+
+def stepWrite (s : S) (kind : NameKind) (d : Digest) (e : StreamEnd) (sendErr : Nat)
+    (msgs : List WriteReq) : S × String :=
+  -- a zstd write needs the decoder's behaviour on the bytes the server feeds it
+  let need : Option Bytes :=
+    match kind, msgs with
+    | .zstd, first :: rest => some (zCollect first.data.length first.finish first.data rest e).1
+    | _, _ => none
+  match need with
+  | some acc => if (s.decTab.lookup acc).isNone then (s, "dec-missing") else run
+  | none => run
+where
+  run : S × String :=
+    let wf : WriteFaults := { put := s.putFault, send := if sendErr = 0 then none else some sendErr }
+    let r := write (tableCodec s) s.flags s.cas kind d msgs e wf
+    ({ s with cas := r.1 }, match r.2 with | .ok n => s!"ok {n}" | .error er => s!"err {showErr er}")
+
+def showRead (r : ReadOut) : String :=
+  match r.res, r.zdata with
+  | some e, _ => s!"err {showErr e} {showChunks r.sent}"
+  | none, some z => s!"okz {bytesHex z}"
+  | none, none => s!"ok {showChunks r.sent}"
+
+def showStatus : Option Err → String
+  | none => "0"
+  | some e => s!"{e.code}.{e.tag}"
+
+def showEntry : Except Err Bytes → String
+  | .ok b => s!"d:{bytesHex b}"
+  | .error e => s!"e:{e.code}.{e.tag}"
+
+def sections? (rest : List String) : Option (List (List String)) :=
+  match rest with
+  | [] => some []
+  | ";" :: r => some (splitOn r ";")
+  | _ => none
+
+def step (s : S) (line : String) : S × String :=
+  match words line with
+  | ["reset"] => ({}, "ok")
+  | ["cfg", cs, mx, sw, sr, ln, tc, tt] =>
+    match nat? cs, int? mx, bool? sw, bool? sr, bool? ln, nat? tc with
+    | some cs, some mx, some sw, some sr, some ln, some tc =>
+      if cs = 0 then (s, "bad-op") else
+      ({ s with cs := cs, maxMsg := mx, flags := { strictW := sw, strictR := sr, lenient := ln, truncErr := ⟨tc, tt⟩ } }, "ok")
+    | _, _, _, _, _, _ => (s, "bad-op")
+  | ["store", h, sz, x] =>
+    match digest? h sz, hexBytes? x with
+    | some d, some b => ({ s with cas := s.cas.put d b }, "ok")
+    | _, _ => (s, "bad-op")
+  | ["acstore", h, sz, x, p] =>
+    match digest? h sz, hexBytes? x, bool? p with
+    | some d, some b, some p => ({ s with ac := s.ac.put d b, garbage := if p then s.garbage else b :: s.garbage }, "ok")
+    | _, _, _ => (s, "bad-op")
+  | ["fault", "clear"] => ({ s with putFault := none, getFault := none, fmFault := none }, "ok")
+  | ["fault", "put", c, e] =>
+    match nat? c, bool? e with
+    | some c, some e => ({ s with putFault := some (c, e) }, "ok")
+    | _, _ => (s, "bad-op")
+  | ["fault", "get", c] => match nat? c with | some c => ({ s with getFault := some c }, "ok") | none => (s, "bad-op")
+  | ["fault", "fm", c] => match nat? c with | some c => ({ s with fmFault := some c }, "ok") | none => (s, "bad-op")
+  | ["dec", i, f, o] =>
+    let fin : Option DFin := if f == "c" then some .clean else if f == "t" then some .trunc else if f == "x" then some .corrupt else none
+    match hexBytes? i, fin, hexBytes? o with
+    | some i, some f, some o => ({ s with decTab := (i, (o, f)) :: s.decTab }, "ok")
+    | _, _, _ => (s, "bad-op")
+  | "write" :: k :: h :: sz :: e :: se :: rest =>
+    match kind? k, digest? h sz, end? e, nat? se, (sections? rest).bind (·.mapM msg?) with
+    | some k, some d, some e, some se, some msgs => stepWrite s k d e se msgs
+    | _, _, _, _, _ => (s, "bad-op")
+  | ["read", k, h, sz, off, lim, fa] =>
+    match kind? k, digest? h sz, int? off, int? lim, nat? fa with
+    | some k, some d, some off, some lim, some fa =>
+      (s, showRead (read idCodec s.flags s.cas k d off lim s.cs fa s.getFault))
+    | _, _, _, _, _ => (s, "bad-op")
+  | "bupd" :: c :: rest =>
+    match call? c, (sections? rest).bind (·.mapM upd?) with
+    | some ce, some us =>
+      let r := batchUpdate idCodec s.cas ce us s.putFault
+      ({ s with cas := r.1 }, match r.2 with
+        | .ok sts => " ".intercalate ("ok" :: sts.map showStatus)
+        | .error e => s!"err {showErr e}")
+    | _, _ => (s, "bad-op")
+  | "bread" :: c :: rest =>
+    match call? c, (sections? rest).bind (·.mapM rd?) with
+    | some ce, some rs =>
+      (s, match batchRead idCodec s.cas ce rs s.maxMsg s.getFault with
+        | .ok es => " ".intercalate ("ok" :: es.map showEntry)
+        | .error e => s!"err {showErr e}")
+    | _, _ => (s, "bad-op")
+  | "fmb" :: c :: rest =>
+    match call? c, (sections? rest).bind (·.mapM rd?) with
+    | some ce, some rs =>
+      (s, match findMissing (storeMissing s.cas s.fmFault) ce rs with
+        | .ok ds => " ".intercalate ("ok" :: ds.map showKey)
+        | .error e => s!"err {showErr e}")
+    | _, _ => (s, "bad-op")
+  | ["acput", c, h, sz, x] =>
+    match call? c, digest? h sz, hexBytes? x with
+    | some ce, some d, some m =>
+      let r := acUpdate s.ac ce d m s.putFault
+      ({ s with ac := r.1 }, match r.2 with | none => "ok" | some e => s!"err {showErr e}")
+    | _, _, _ => (s, "bad-op")
+  | ["acget", c, h, sz] =>
+    match call? c, digest? h sz with
+    | some ce, some d =>
+      (s, match acGet (fun m => !s.garbage.contains m) s.ac ce d s.maxMsg.toNat s.getFault with
+        | .ok m => s!"ok {bytesHex m}"
+        | .error e => s!"err {showErr e}")
+    | _, _ => (s, "bad-op")
+  | ["cput", z, h, sz, x] =>
+    match bool? z, digest? h sz, hexBytes? x with
+    | some z, some d, some data =>
+      let msgs := if z then clientPutMsgsZ [idCodec.enc data] else clientPutMsgs s.cs data
+      let r := write idCodec s.flags s.cas (if z then .zstd else .identity) d msgs .eof { put := s.putFault }
+      ({ s with cas := r.1 }, match r.2 with | .ok _ => "ok" | .error e => s!"err {showErr e}")
+    | _, _, _ => (s, "bad-op")
+  | ["cget", z, h, sz] =>
+    match bool? z, digest? h sz with
+    | some z, some d =>
+      let r := read idCodec s.flags s.cas (if z then .zstd else .identity) d 0 0 s.cs 0 s.getFault
+      (s, match clientGet idCodec s.flags d r with
+        | .ok b => s!"ok {bytesHex b}"
+        | .error e => s!"err {showErr e}")
+    | _, _ => (s, "bad-op")
+  | "cfm" :: rest =>
+    match (sections? rest).bind (·.mapM fun ws => match ws with | [h, sz] => digest? h sz | _ => none) with
+    | some ds =>
+      (s, match clientFindMissing (storeMissing s.cas s.fmFault) ds with
+        | .ok ds => " ".intercalate ("ok" :: ds.map showKey)
+        | .error e => s!"err {showErr e}")
+    | none => (s, "bad-op")
+  | ["dump"] => (s, s!"cas {showStore s.cas} | ac {showStore s.ac}")
+  | _ => (s, "bad-op")
+
+def main : IO Unit := loop step {}
